@@ -1,4 +1,4 @@
-//@ props: C07,C08
+//@ props: C07,C08,C13
 //@ target: src/ops/delay.rs
 // C07 at the API level (independent of helper functions and of how the operators are written): the
 // real `delay_subscription` / `subscribe_on` operators are run on a
@@ -127,3 +127,61 @@ fn timer_counts_its_delay_from_subscription() {
   assert!(sched.delays.borrow().0 == 1 && sched.delays.borrow().1[0] == Some(d));
   assert!(count(&log) == 2 && at(&log, 0) == Some(Ev::Next(item)) && at(&log, 1) == Some(Ev::Complete));
 }
+
+// [C07,C13] delay_subscription(d): the delay is counted from the SUBSCRIPTION, not from the moment the
+// pipeline was built — however much time passes in between, the one subscribing task is submitted with
+// exactly Some(d), and a clone subscribed still later asks for exactly Some(d) again
+//@ bounded: at most 2 items before the terminal
+#[kani::proof]
+#[kani::unwind(8)]
+#[kani::stub(std::time::Instant::now, vclock_stub)]
+fn delay_subscription_counts_its_delay_from_subscription() {
+  let s = any_dscript();
+  let d = any_duration();
+  let sched = RecSched::new();
+  let built = s.delay_subscription(d, sched.clone());
+  let copy = built.clone();
+  let gap: u32 = kani::any();
+  unsafe { VCLOCK_NS += gap as u64; }                 // time passes before the first subscription
+  let log1 = new_log();
+  let _u1 = built.actual_subscribe(Probe::new(&log1));
+  assert!(sched.delays.borrow().0 == 1 && sched.delays.borrow().1[0] == Some(d));
+  let gap2: u32 = kani::any();
+  unsafe { VCLOCK_NS += gap2 as u64; }                // ... and more before the second
+  let log2 = new_log();
+  let _u2 = copy.actual_subscribe(Probe::new(&log2));
+  assert!(sched.delays.borrow().0 == 2 && sched.delays.borrow().1[1] == Some(d));
+  expect_history(&log1, &s);
+  expect_history(&log2, &s);
+}
+
+// [C08] timer_at(item, at): the one task is submitted with a delay that is NOT SHORTER than the time that
+// remains until `at` (the item is never emitted before the due time), for every remaining time with
+// nanosecond resolution — in particular just below a whole second / a whole millisecond
+fn vinstant_after(d: Duration) -> std::time::Instant {
+  unsafe {
+    let total = VCLOCK_NS as u128 + d.as_nanos();
+    let secs = (total / 1_000_000_000) as i64;
+    let nanos = (total % 1_000_000_000) as u32;
+    std::mem::transmute::<(i64, u32), std::time::Instant>((secs, nanos))
+  }
+}
+#[kani::proof]
+#[kani::unwind(8)]
+#[kani::stub(std::time::Instant::now, vclock_stub)]
+fn timer_at_is_never_early() {
+  let d = any_duration();
+  let item: u8 = kani::any();
+  let sched = RecSched::new();
+  let log = new_log();
+  let at = vinstant_after(d);
+  let _u = crate::observable::timer_at(item, at, sched.clone()).actual_subscribe(Probe::new(&log));
+  let rec = sched.delays.borrow();
+  assert!(rec.0 == 1);
+  match rec.1[0] {
+    Some(asked) => assert!(asked >= d),
+    None => assert!(d == Duration::default()),
+  }
+  assert!(count(&log) == 2 && at_is(&log, 0, Ev::Next(item)) && at_is(&log, 1, Ev::Complete));
+}
+fn at_is(l: &LogRc, i: usize, e: Ev) -> bool { at(l, i) == Some(e) }
